@@ -74,6 +74,9 @@ func (e *env) monitor(ev vfs.Event) {
 			e.bad = append(e.bad, fmt.Sprintf("%s %s (given as %q) is outside the root, during %s", ev.Op, p, ev.Raw, e.cur))
 			return
 		}
+		if p == e.root && e.cur == "" && ev.Op == "mkdirall" {
+			return // the store creates its own root when it is opened, before any request: inside the root, no request involved
+		}
 		for _, a := range e.addr {
 			if a == "*" {
 				return
@@ -570,6 +573,76 @@ func batch(r *vh.Run, i int) {
 	}
 }
 
+// nonRepositoryTrial: the root holds a directory X that is no repository - it has an index.json (a file of some other
+// application, or a layout someone took apart) and a blobs/sha256/<d> file, but no oci-layout file (or one of another
+// version).  "A cross-repository mount succeeds only if the source repository holds the blob": X is no repository, so
+// a mount from it never answers 201 and its file never becomes visible in a real repository - whatever was asked of X
+// before (the store once took X for a repository as soon as its index.json had been read by a listing).
+func nonRepositoryTrial(r *vh.Run, i int) {
+	kind := []vh.StoreKind{vh.Dir, vh.MemDir}[i%2]
+	ro := (i/2)%2 == 1
+	outer := r.TempDir("c16n")
+	defer vh.RemoveAll(outer)
+	root := filepath.Join(outer, "root")
+	x := filepath.Join(root, "x")
+	_ = os.MkdirAll(filepath.Join(x, "blobs", "sha256"), 0o755)
+	content := []byte(fmt.Sprintf("file of a directory that is no repository %d", i))
+	d := vh.DigestOf("sha256", content)
+	_ = os.WriteFile(filepath.Join(x, "blobs", "sha256", d[7:]), content, 0o644)
+	idx := []string{`{"schemaVersion":2,"manifests":[]}`, `{"name":"something else","items":[1,2,3]}`}[(i/4)%2]
+	_ = os.WriteFile(filepath.Join(x, "index.json"), []byte(idx), 0o644)
+	if (i/8)%2 == 1 {
+		_ = os.WriteFile(filepath.Join(x, "oci-layout"), []byte(`{"imageLayoutVersion":"2.0.0"}`), 0o644)
+	}
+	c := vh.Conf(kind, root, vh.Neutral)
+	if ro {
+		c.Storage.ReadOnly = vh.BP(true)
+	}
+	srv := vh.New(c)
+	defer srv.Close()
+	wit := map[string]any{"trial": i, "store": kind.String(), "read_only": ro, "index_json": idx}
+	var tr []string
+	do := func(rq vh.Req) vh.Resp {
+		rs := vh.Do(srv, rq)
+		tr = append(tr, fmt.Sprintf("%s %s = %d", rq.Method, rq.URL, rs.Status))
+		return rs
+	}
+	do(vh.Req{Method: "GET", URL: "/v2/x/blobs/" + d})
+	do(vh.Req{Method: "GET", URL: "/v2/x/tags/list"})
+	do(vh.Req{Method: "GET", URL: "/v2/x/manifests/latest", H: map[string]string{"Accept": vh.AcceptAll}})
+	do(vh.Req{Method: "GET", URL: "/v2/x/blobs/" + d})
+	r.Count("non_repository_trials", 1)
+	if !ro {
+		m := do(vh.Req{Method: "POST", URL: "/v2/real/blobs/uploads/?mount=" + d + "&from=x"})
+		g := do(vh.Req{Method: "GET", URL: "/v2/real/blobs/" + d})
+		wit["requests"] = tr
+		if m.Status == 201 || g.Status == 200 {
+			r.Violation("isolation:mount-from-a-directory-that-is-no-repository", fmt.Sprintf("%s store: %s/x has an index.json and a blobs directory but is no OCI layout; after a listing of x, POST ?mount=<d>&from=x answers %d and GET /v2/real/blobs/<d> answers %d: a file of a directory that is no repository became content of a repository", kind, "root", m.Status, g.Status), wit)
+		}
+	}
+}
+
+// missingRootTrial: the configured root does not exist yet (and neither does its parent).  Requests may create what they
+// need at or below the root - never the directories above it: those are outside the root.
+func missingRootTrial(r *vh.Run, i int) {
+	outer := r.TempDir("c16m")
+	defer vh.RemoveAll(outer)
+	root := filepath.Join(outer, "not-there", "nor-this", "root")
+	c := vh.Conf(vh.Dir, root, vh.Neutral)
+	srv := vh.New(c)
+	defer srv.Close()
+	// what the server creates when it is started is the operator's doing; from here on it is the requests'
+	before := snapshotOutside(outer, root)
+	b := []byte(fmt.Sprintf("first push %d", i))
+	rs := vh.Do(srv, vh.Req{Method: "POST", URL: "/v2/a/b/blobs/uploads/?digest=" + vh.DigestOf("sha256", b), Body: b})
+	vh.Do(srv, vh.Req{Method: "GET", URL: "/v2/a/b/tags/list"})
+	after := snapshotOutside(outer, root)
+	r.Count("missing_root_trials", 1)
+	if before != after {
+		r.Violation("path:created-above-the-root", fmt.Sprintf("the configured root %s did not exist; the first push (answered %d) created directories above it:\nbefore:\n%s\nafter:\n%s", strings.TrimPrefix(root, outer), rs.Status, before, after), map[string]any{"trial": i})
+	}
+}
+
 func main() {
 	r := vh.Start()
 	n := r.N(96, 3000)
@@ -577,6 +650,10 @@ func main() {
 	if ua := vfs.UnattributedPaths(); len(ua) > 0 {
 		r.Violation("path:unattributed", fmt.Sprintf("filesystem calls on paths outside every sandbox: %v", ua), nil)
 	}
+	nn := r.N(32, 320)
+	vh.Parallel(nn, 8, func(i int) { nonRepositoryTrial(r, i) })
+	vh.Parallel(r.N(4, 40), 4, func(i int) { missingRootTrial(r, i) })
+	r.Require("non_repository_trials", int64(nn))
 	r.Require("batches", int64(n))
 	r.Require("cross_probes", 10000)
 	r.Require("fs_events_checked", 5000)
